@@ -249,7 +249,15 @@ where
         };
 
         tokio::spawn(async move {
-            let mut interval = tokio::time::interval(collector.batch_timeout / 4);
+            // tokio panics on a zero period (a batch_timeout below 4 ns): the checker task would die at
+            // once and nothing would ever be flushed by timeout; check every millisecond instead
+            let period = collector.batch_timeout / 4;
+            let period = if period.is_zero() {
+                Duration::from_millis(1)
+            } else {
+                period
+            };
+            let mut interval = tokio::time::interval(period);
 
             loop {
                 interval.tick().await;
